@@ -6,7 +6,7 @@
   the H1 step log of the real engine; file system = durable image + unsynced operations; process
   death keeps everything written, power loss keeps the durable image plus ANY subset of the
   unsynced page operations — each whole or torn — plus any prefix of the unsynced log fragments)
-  and Nervus.Model.Recovery (what `GraphEngine::open` reads).  Spec: Nervus.Spec.TxLog.
+  and Nervus.Model.Recovery (what `GraphEngine::open` reads).  Spec: Nervus.Spec.CrashTxLog.
   Switches of the model come from the source (`Generated.CrashCfg`): the theorems below are about
   `cfgOfSource`, i.e. about the tree as it is now.
 -/
